@@ -430,7 +430,7 @@ def _closer(n):
 
 def _bad_after(n, follow, nxt):
     """Does `follow` (the source after node n inside its parent, closer included) break the meaning
-    of n?  `nxt` = the sibling nodes after n (for the rule about `\\end{..}[`)."""
+    of n?  `nxt` = the sibling nodes after n."""
     k = n.kind
     if k == 'comment':
         return not follow.startswith('\n')
@@ -449,23 +449,6 @@ def _bad_after(n, follow, nxt):
             if n.name == 'section' and len(n.args) == 1:
                 return follow.startswith('[')
             return False
-    if k == 'env' and LIST_END_BRACKET_GUARD and n.sub == 'list' and any(c.kind == 'item' for c in n.children):
-        # read_item looks ahead at the closing `\\end{list}` together with every group after it: an
-        # opening bracket right after them would have to find its partner, so it is kept away
-        j = 0
-        while j < len(nxt):
-            x = nxt[j]
-            if x.kind == 'group' and x.sub == 'brace':
-                j += 1
-            elif (x.kind == 'text' and OPENER.fullmatch(x.s + '{') and j + 1 < len(nxt)
-                  and nxt[j + 1].kind == 'group'):
-                j += 1
-            else:
-                break
-        rest = ''.join(render_str(x) for x in nxt[j:])
-        if j == len(nxt):
-            rest += follow[len(''.join(render_str(x) for x in nxt)):]
-        return rest.startswith('[')
     return False
 
 
@@ -478,9 +461,6 @@ def _head_bad(n, body):
             return True
         return OPENER.match(body) is not None
     return False
-
-
-LIST_END_BRACKET_GUARD = True       # see _bad_after
 
 
 class FrameError(Exception):
@@ -535,9 +515,6 @@ def fix(node, rng=None, eof_comment=True, math=False):
             if bad:
                 if n.kind == 'comment':
                     sep = '\n'
-                elif n.kind == 'env':
-                    # a visible character detaches whatever follows from `\\end{name}`
-                    sep = _choose_sep(rng, [c for c in cands if c.strip() and c[0] not in '\\~'], lambda c: True)
                 else:
                     def ok(c, n=n, follow=follow, nxt=nxt):
                         return not _bad_after(n, c + follow, [text(c)] + nxt)
